@@ -51,6 +51,7 @@ pub struct Session {
     pub dir: PathBuf,
     /// `capabilities.positionEncoding` of the initialize result
     pub announced_encoding: Option<String>,
+    pub server_requests_answered: u64,
     main: Option<tokio::task::JoinHandle<String>>,
 }
 
@@ -105,12 +106,15 @@ impl Session {
             published: Vec::new(),
             dir: dir.to_path_buf(),
             announced_encoding: None,
+            server_requests_answered: 0,
             main: Some(main),
         };
-        let capabilities = match client_encodings {
-            Some(list) => json!({ "general": { "positionEncodings": list } }),
-            None => json!({}),
-        };
+        // an editor that supports everything a server may ask a client for
+        let mut capabilities = crate::c08::full_client_capabilities();
+        match client_encodings {
+            Some(list) => capabilities["general"] = json!({ "positionEncodings": list }),
+            None => capabilities["general"] = json!({}),
+        }
         let result = s.request("initialize", json!({ "capabilities": capabilities, "processId": null, "rootUri": null }))?;
         s.announced_encoding = result["capabilities"]["positionEncoding"].as_str().map(|x| x.to_string());
         s.send(json!({ "jsonrpc": "2.0", "method": "initialized", "params": {} }))?;
@@ -174,6 +178,13 @@ impl Session {
     }
 
     fn absorb(&mut self, msg: Value) -> Option<Value> {
+        if let (Some(id), Some(_)) = (msg.get("id"), msg.get("method")) {
+            // a request of the server (refresh, registration, configuration ...): answered like an editor does,
+            // when the client gets round to reading it
+            let _ = self.send(json!({ "jsonrpc": "2.0", "id": id, "result": null }));
+            self.server_requests_answered += 1;
+            return None;
+        }
         if msg.get("method").and_then(|m| m.as_str()) == Some("textDocument/publishDiagnostics") {
             self.publications_read += 1;
             self.published.push(msg["params"].clone());
